@@ -158,6 +158,35 @@ func GzipPacked(body []byte) []byte {
 	return (&W{}).U32(IDGzipPacked).Str(zb.Bytes()).B
 }
 
+// GzipPackedStyle is GzipPacked with the ways a conformant server may produce the stream: style 1 compresses as a
+// stream and flushes in between (deflate sync-flush points at 1/3 and 2/3 of the data), 2 stores without compression,
+// 3 uses Huffman-only coding, 4 best compression; anything else is GzipPacked.
+func GzipPackedStyle(body []byte, style int) []byte {
+	level := gzip.DefaultCompression
+	switch style {
+	case 2:
+		level = gzip.NoCompression
+	case 3:
+		level = gzip.HuffmanOnly
+	case 4:
+		level = gzip.BestCompression
+	}
+	var zb bytes.Buffer
+	zw, _ := gzip.NewWriterLevel(&zb, level)
+	if style == 1 {
+		a, b := len(body)/3, 2*len(body)/3
+		zw.Write(body[:a])
+		zw.Flush()
+		zw.Write(body[a:b])
+		zw.Flush()
+		zw.Write(body[b:])
+	} else {
+		zw.Write(body)
+	}
+	zw.Close()
+	return (&W{}).U32(IDGzipPacked).Str(zb.Bytes()).B
+}
+
 // GzipDamaged builds a gzip_packed whose TL envelope is well formed but whose stream is damaged: how = 0 the stream
 // ends before the trailer, 1 wrong CRC-32 in the trailer, 2 wrong size in the trailer, 3 a byte of the deflate data
 // changed, 4 the stream ends in the middle of the deflate data, 5 trailing bytes after a complete stream.
